@@ -44,7 +44,11 @@ static size_t RandLen(Rng &r, bool thorough) {
     case 2: return 127 + r.below(3);
     case 3: return 16383 + r.below(3);
     case 4: return thorough ? 65536 : 20000;
+#if defined(__SANITIZE_ADDRESS__)
+    default: return 1 + r.below(63);
+#else
     default: return r.below(64);
+#endif
   }
 }
 
